@@ -35,6 +35,13 @@ def main(argv):
         resource.setrlimit(resource.RLIMIT_CPU, (cpu, cpu + 30))
     except Exception:
         pass
+    # address-space cap: a memory bomb (in the code under test or in a reference model) must fail inside this shard
+    # (MemoryError) instead of inviting the kernel's OOM killer, which picks its victims freely
+    try:
+        gb = int(spec.get("_rlimit_as_gb", 8))
+        resource.setrlimit(resource.RLIMIT_AS, (gb << 30, gb << 30))
+    except Exception:
+        pass
     prepare()
     mod = importlib.import_module("vf.props." + pid.lower())
     res = mod.run_shard(spec)
